@@ -126,8 +126,8 @@ Record wst := {
   w_err : bool }.
 
 (* fx_formula: C17-fix-1; fx_ft: C17-fix-3 (refusal decision); fx_global:
-   C17-fix-4; fx_dimname: C08-fix-6 (the name a dimension coordinate takes
-   from its dimension is made unique).  C17-fix-2 (metadata of the original
+   C17-fix-4; fx_dimname: /repo commits e0a05b9 and 52c62c8 (from C08 and C01:
+   how a new coordinate variable is named after the dimension of its axis).  C17-fix-2 (metadata of the original
    fields brought into memory) has no counterpart here: it removes a crash
    of the netCDF library, which the model does not represent. *)
 Record variant := { fx_formula : bool; fx_global : bool; fx_ft : bool; fx_dimname : bool }.
@@ -259,6 +259,30 @@ Definition write_bounds (m : mode) (k : cst) (c : content) (cdims : list string)
   end.
 
 (* ---- _write_dimension_coordinate ------------------------------------------------ *)
+(* the name of a new coordinate variable (and of its dimension).  Current
+   code: the netCDF dimension name of the axis when the coordinate has no
+   netCDF variable name of its own, else that name or the standard_name, else
+   "coordinate" - always made unique.  Pinned commit ([fx_dimname] false):
+   variable name or standard_name first, and the dimension name was taken as
+   it was, without the uniqueness test. *)
+Definition dimcoord_name (m : mode) (ax : axis) (k : cst) (c : content) (s : wst) : string * wst :=
+  if fx_dimname (m_var m) then
+    match a_ncdim ax, k_ncvar k with
+    | Some d, None => netcdf_name d s
+    | _, _ => match name_of k c None with
+              | Some base => netcdf_name base s
+              | None => netcdf_name "coordinate" s
+              end
+    end
+  else
+    match name_of k c None with
+    | Some base => netcdf_name base s
+    | None => match a_ncdim ax with
+              | Some d => (d, s)
+              | None => netcdf_name "coordinate" s
+              end
+    end.
+
 (* returns (netCDF variable, netCDF dimension of the axis) *)
 Definition write_dimcoord (m : mode) (ax : axis) (k : cst) (c : content) (s : wst)
   : (string * string) * wst :=
@@ -273,14 +297,7 @@ Definition write_dimcoord (m : mode) (ax : axis) (k : cst) (c : content) (s : ws
   match create with
   | Some r => (r, s)
   | None =>
-    let '(nv, s1) :=
-      match name_of k c None with
-      | Some base => netcdf_name base s
-      | None => match a_ncdim ax with
-                | Some d => if fx_dimname (m_var m) then netcdf_name d s else (d, s)
-                | None => netcdf_name "coordinate" s
-                end
-      end in
+    let '(nv, s1) := dimcoord_name m ax k c s in
     let s2 := create_dim m nv (a_size ax) (upd_dimsz (cons (nv, a_size ax)) s1) in
     let '(extra, s3) := write_bounds m k c [nv] nv s2 in
     ((nv, nv), write_var m nv [nv] c (c_props c) extra s3)
